@@ -169,7 +169,7 @@ prop("C03",
      "the single-thread history enumeration itself (the rules are per-API invariants that make every history safe).")
 
 prop("C04",
-     [st.rule_E1, sem.rule_E2, st.rule_DELEG, cg.rule_E3, ts2.rule_E4r, ts2.rule_R4, A("rule_E5"), A("rule_X2"), sem.rule_N1, st.rule_N4, st.rule_N5, sig.rule_O1, sig.rule_O3],
+     [st.rule_E1, sem.rule_E2, st.rule_DELEG, cg.rule_E3, ts2.rule_E4r, ts2.rule_R4, A("rule_E5"), A("rule_X2"), sem.rule_N1, st.rule_N4, st.rule_N5, sig.rule_O1, sig.rule_O3, Q4_leaks],
      "E1 every get_ptrs is leaf/delegate/container(all members)/cached-sorted-list; E2 (data model, helpers inlined) each of the 24 "
      "collection lock operations touches every leaf exactly once and only in its own mode; wrappers delegate op-for-op; E3 no try-style function "
      "reaches a blocking acquisition (call graph); E4 scoped closure runs exactly once iff acquired and its result is returned; "
@@ -233,7 +233,7 @@ prop("C08",
      "the run-time acquisition sequence for concrete inputs.")
 
 prop("C09",
-     [A("rule_Y1"), A("rule_Y2"), A("rule_Y3"), sem.rule_E2, cg.rule_E3, st.rule_E1, sig.rule_O1, sig.rule_O3],
+     [A("rule_Y1"), A("rule_Y2"), A("rule_Y3"), sem.rule_E2, cg.rule_E3, st.rule_E1, sig.rule_O1, sig.rule_O3, ts.rule_T1],
      "Y1 exactly one blocking acquisition site per pass, every other acquisition of the pass is a try; Y2 every path from a failed "
      "try back to the blocking site passes through the rollback of the prefix and the guarded release of the first lock; Y3 the "
      "held set is empty whenever the blocking site is reached (k-bounded held-set analysis: list length <= 3 quick / 6 thorough, <= 2 / 4 "
@@ -261,7 +261,7 @@ prop("C11",
      "progress of waiting threads (schedules).")
 
 prop("C12",
-     [st.rule_Q1, st.rule_Q2, st.rule_Q6, st.rule_M5, st2.rule_F5, A("rule_Q3"), A("rule_Q4")],
+     [st.rule_Q1, st.rule_Q2, st.rule_Q6, st.rule_M5, st2.rule_F5, A("rule_Q3"), A("rule_Q4"), st2.rule_Q7],
      "Q1 every lock_api call sits in a handle_unwind try closure whose handler kills the same lock, and nowhere else; Q2 killed locks "
      "refuse (blocking ops panic, try ops return false, no raw op attempted); Q3 the algorithms' acquisition loops run inside "
      "handle_unwind with a handler releasing a prefix of the same list in the same mode; Q4 at every unwind source the handler "
@@ -285,7 +285,7 @@ prop("C16",
      "drop counts when user Drop/Default/Debug code itself panics; values observed after writes (follows from C02).")
 
 prop("C17",
-     [cg.rule_V1, st2.rule_V2, st2.rule_V3, ts.rule_T1, ts.rule_M4],
+     [cg.rule_V1, st2.rule_V2, st2.rule_V3, ts.rule_T1, ts.rule_M4, st2.rule_V4],
      "V1 no non-acquiring function reaches a blocking raw acquisition (call graph over all 200+ of them); V2 a non-acquiring "
      "function releases nothing except a hold it took itself by a successful try, and releases that on every exit; V3 poison "
      "accessors touch only the flag.",
